@@ -30,6 +30,7 @@ func combineCase(c *run.Ctx) run.Result {
 
 	other, od := gen.Mesh(r, opts)
 	o.checkAppend(other, od)
+	o.checkDeriveTwice(other)
 	o.checkRepeat()
 	if topo == modeling.TriangleTopology {
 		o.checkSplit()
@@ -100,72 +101,195 @@ func samePtrs(a, b []*modeling.Material) bool {
 	return true
 }
 
+// appendOracle: the result of a.Append(b) is a's primitives followed by b's,
+// attributes one side lacks zero-filled; per-primitive materials concatenated
+// when both sides carry full ranges (or none does).
+func (o *opctx) appendOracle(site string, a, b, out *ref.Snapshot, extra ...any) bool {
+	am, bm := newModel(a), newModel(b)
+	extra = append([]any{"other", witnessOf(b)}, extra...)
+	if out.Topology != a.Topology {
+		o.violate("topology-changed", site, fmt.Sprintf("topology %v -> %v", a.Topology, out.Topology), extra...)
+		return false
+	}
+	keys := unionNames(am.names, bm.names)
+	want := append(am.primsOver(keys), bm.primsOver(keys)...)
+	om := newModel(out)
+	got := om.primsOver(keys)
+	if len(want) > 0 && len(got) > 0 && !sameNames(keys, om.names) {
+		o.violate("attribute-set-changed", site, fmt.Sprintf("attributes %v + %v -> %v (expected the union %v)", am.names, bm.names, om.names, keys), extra...)
+		return false
+	}
+	na := am.nPrims()
+	if d := seqDiff(want, got, keys, am.K, func(i int) string {
+		if i < na {
+			return fmt.Sprintf("primitive %d of the receiver", i)
+		}
+		return fmt.Sprintf("primitive %d of the appended mesh", i-na)
+	}); d != "" {
+		o.violate("corner-mismatch", site, "the result must be the receiver's primitives followed by the other's, attributes one side lacks zero-filled: "+d, extra...)
+		return false
+	}
+	o.res.Count("corners_compared", int64(len(want)*am.K))
+	ma, mb := perPrimMaterials(a), perPrimMaterials(b)
+	switch {
+	case ma == nil && mb == nil:
+		if len(out.MatCount) != 0 {
+			o.violate("materials-changed", site, fmt.Sprintf("neither mesh has materials, the result has %d ranges", len(out.MatCount)), extra...)
+			return false
+		}
+	case ma != nil && mb != nil && len(ma) == na && len(mb) == bm.nPrims():
+		if g := perPrimMaterials(out); !samePtrs(append(append([]*modeling.Material{}, ma...), mb...), g) {
+			o.violate("materials-changed", site, fmt.Sprintf("per-primitive materials: receiver [%s] + other [%s] -> [%s]", matNames(ma), matNames(mb), matNames(g)), extra...)
+			return false
+		}
+		o.res.Count("append.materials_checked", 1)
+	default:
+		o.res.Count("append.materials_one_sided_not_examined", 1)
+	}
+	return true
+}
+
 func (o *opctx) checkAppend(other modeling.Mesh, od gen.MeshDesc) {
 	const site = "Mesh.Append"
 	bs := ref.Snap(other)
 	bm := newModel(bs)
 	o.res.SetAdd("append.other_attr_mixes", strings.Join(od.Attrs, ","))
 
-	check := func(site string, b *ref.Snapshot, bm *model, out *ref.Snapshot) bool {
-		extra := []any{"other", witnessOf(b)}
-		if out.Topology != o.in.Topology {
-			o.violate("topology-changed", site, fmt.Sprintf("topology %v -> %v", o.in.Topology, out.Topology), extra...)
-			return false
-		}
-		keys := unionNames(o.im.names, bm.names)
-		want := append(o.im.primsOver(keys), bm.primsOver(keys)...)
-		om := newModel(out)
-		got := om.primsOver(keys)
-		if len(want) > 0 && len(got) > 0 && !sameNames(keys, om.names) {
-			o.violate("attribute-set-changed", site, fmt.Sprintf("attributes %v + %v -> %v (expected the union %v)", o.im.names, bm.names, om.names, keys), extra...)
-			return false
-		}
-		na := o.im.nPrims()
-		if d := seqDiff(want, got, keys, o.im.K, func(i int) string {
-			if i < na {
-				return fmt.Sprintf("primitive %d of the receiver", i)
-			}
-			return fmt.Sprintf("primitive %d of the appended mesh", i-na)
-		}); d != "" {
-			o.violate("corner-mismatch", site, "the result must be the receiver's primitives followed by the other's, attributes one side lacks zero-filled: "+d, extra...)
-			return false
-		}
-		o.res.Count("corners_compared", int64(len(want)*o.im.K))
-		// materials: when both sides carry ranges for all their primitives (or none does)
-		// the per-primitive material sequence is the concatenation
-		ma, mb := perPrimMaterials(o.in), perPrimMaterials(b)
-		switch {
-		case ma == nil && mb == nil:
-			if len(out.MatCount) != 0 {
-				o.violate("materials-changed", site, fmt.Sprintf("neither mesh has materials, the result has %d ranges", len(out.MatCount)), extra...)
-				return false
-			}
-		case ma != nil && mb != nil && len(ma) == na && len(mb) == bm.nPrims():
-			if g := perPrimMaterials(out); !samePtrs(append(append([]*modeling.Material{}, ma...), mb...), g) {
-				o.violate("materials-changed", site, fmt.Sprintf("per-primitive materials: receiver [%s] + other [%s] -> [%s]", matNames(ma), matNames(mb), matNames(g)), extra...)
-				return false
-			}
-			o.res.Count("append.materials_checked", 1)
-		default:
-			o.res.Count("append.materials_one_sided_not_examined", 1)
-		}
-		return true
-	}
-
-	out, ok := o.call(site, func() modeling.Mesh { return o.mesh.Append(other) }, "other", witnessOf(bs))
-	if ok && check(site, bs, bm, out) {
+	out, ok := o.call(site, func() modeling.Mesh { return o.mesh.Append(other) })
+	if ok && o.appendOracle(site, o.in, bs, out) {
 		o.nontrivial(site, o.nonIdentity() && bm.nPrims() > 0 && !sameNames(o.im.names, bm.names))
 		if !sameNames(o.im.names, bm.names) && o.im.L > 0 && bm.L > 0 {
 			o.res.Count("append.zero_fill_cases", 1)
 		}
 	}
-	// self-append and the mirrored order
+	// self-append
 	if o.r.Intn(2) == 0 {
 		const s2 = "Mesh.Append (self)"
 		if out, ok := o.call(s2, func() modeling.Mesh { return o.mesh.Append(o.mesh) }); ok {
-			check(s2, o.in, o.im, out)
+			o.appendOracle(s2, o.in, o.in, out)
 		}
 	}
+}
+
+// spareCapacity reports (evidence only, through the verif-tagged storage hook)
+// whether some backing slice of m has cap > len.
+func spareCapacity(m modeling.Mesh) bool {
+	for _, s := range modeling.VerifStorage(m) {
+		if s.Cap > s.Len {
+			return true
+		}
+	}
+	return false
+}
+
+// checkDeriveTwice derives two results from ONE base and re-reads the first after
+// the second exists. The base is preferably itself the output of an operation that
+// builds its storage with append() (Unweld, Append, RemovedUnreferencedVertices,
+// repeat.Mesh), i.e. one with spare capacity behind its slices: an Append that
+// writes into that capacity produces a first result that is right when produced
+// and wrong once the second derivation has run.
+func (o *opctx) checkDeriveTwice(other modeling.Mesh) {
+	const site = "Mesh.Append"
+	r := o.r
+	posKey := "3:" + modeling.PositionAttribute
+	kinds := []string{"input", "unweld", "unweld", "append", "append", "rmunref", "append-chain"}
+	if o.im.has(posKey) {
+		kinds = append(kinds, "repeat", "repeat")
+	}
+	kind := pick(r, kinds)
+	small := func() modeling.Mesh {
+		m, _ := gen.Mesh(r, gen.MeshOpts{Topologies: []modeling.Topology{o.mesh.Topology()}, MaxVerts: pick(r, []int{3, 3, 6, 12}), MinVerts: 1, NoPositionOK: true})
+		return m
+	}
+	x, y := small(), small()
+	if r.Intn(4) == 0 {
+		y = x // the same mesh appended twice
+	}
+	var base modeling.Mesh
+	var bsnap *ref.Snapshot
+	ok := true
+	switch kind {
+	case "input":
+		base, bsnap = o.mesh, o.in
+	case "unweld":
+		base, bsnap, ok = o.callMesh("meshops.Unweld", func() modeling.Mesh { return meshops.Unweld(o.mesh) })
+	case "append":
+		base, bsnap, ok = o.callMesh(site, func() modeling.Mesh { return o.mesh.Append(other) })
+	case "append-chain":
+		base, bsnap, ok = o.callMesh(site, func() modeling.Mesh { return o.mesh.Append(other).Append(small()).Append(o.mesh) })
+	case "rmunref":
+		base, bsnap, ok = o.callMesh("meshops.RemovedUnreferencedVertices", func() modeling.Mesh { return meshops.RemovedUnreferencedVertices(o.mesh) })
+	case "repeat":
+		a, _ := genTRS(r)
+		b, _ := genTRS(r)
+		base, bsnap, ok = o.callMesh("repeat.Mesh", func() modeling.Mesh { return repeat.Mesh(o.mesh, []trs.TRS{a, b}) })
+	}
+	if !ok {
+		return
+	}
+	o.res.SetAdd("derive_twice.base_kinds", kind)
+	o.res.Count("derive_twice.cases", 1)
+	spare := spareCapacity(base)
+	if spare {
+		o.res.Count("derive_twice.bases_with_spare_capacity", 1)
+	}
+	o.param("twice(%s)", kind)
+	xs, ys := ref.Snap(x), ref.Snap(y)
+	extra := []any{"base", kind, "base_has_spare_capacity", spare}
+
+	// two siblings off the same base
+	a, as, ok := o.callMesh(site, func() modeling.Mesh { return base.Append(x) }, extra...)
+	if !ok || !o.appendOracle(site, bsnap, xs, as, extra...) {
+		return
+	}
+	b, bs2, ok := o.callMesh(site, func() modeling.Mesh { return base.Append(y) }, extra...)
+	if !ok || !o.appendOracle(site, bsnap, ys, bs2, extra...) {
+		return
+	}
+	if !o.stillSame(retainedOut{site, a, as}, []string{"base.Append(y) (second derivation from the same base)"}, extra...) {
+		return
+	}
+	// a chain: two siblings off the first result, then re-read everything
+	c1, c1s, ok := o.callMesh(site, func() modeling.Mesh { return a.Append(y) }, extra...)
+	if !ok || !o.appendOracle(site, as, ys, c1s, extra...) {
+		return
+	}
+	_, c2s, ok := o.callMesh(site, func() modeling.Mesh { return a.Append(x) }, extra...)
+	if !ok || !o.appendOracle(site, as, xs, c2s, extra...) {
+		return
+	}
+	for _, re := range []retainedOut{{site, c1, c1s}, {site, a, as}, {site, b, bs2}, {site, base, bsnap}} {
+		if !o.stillSame(re, []string{"a.Append(y)", "a.Append(x) (siblings derived from an earlier result)"}, extra...) {
+			return
+		}
+	}
+	// repeat.Mesh off the same base twice (needs a position), then re-read the first
+	if newModel(bsnap).has(posKey) && r.Intn(2) == 0 {
+		t1, _ := genTRS(r)
+		t2, _ := genTRS(r)
+		t3, _ := genTRS(r)
+		r1, r1s, ok := o.callMesh("repeat.Mesh", func() modeling.Mesh { return repeat.Mesh(base, []trs.TRS{t1, t2}) }, extra...)
+		if !ok {
+			return
+		}
+		d1, d1s, ok := o.callMesh(site, func() modeling.Mesh { return r1.Append(x) }, extra...)
+		if !ok || !o.appendOracle(site, r1s, xs, d1s, extra...) {
+			return
+		}
+		if _, _, ok = o.callMesh("repeat.Mesh", func() modeling.Mesh { return repeat.Mesh(base, []trs.TRS{t3}) }, extra...); !ok {
+			return
+		}
+		if _, _, ok = o.callMesh(site, func() modeling.Mesh { return r1.Append(y) }, extra...); !ok {
+			return
+		}
+		if !o.stillSame(retainedOut{"repeat.Mesh", r1, r1s}, []string{"repeat.Mesh(base, …) again", "r1.Append(y)"}, extra...) {
+			return
+		}
+		if !o.stillSame(retainedOut{site, d1, d1s}, []string{"r1.Append(y) (sibling of r1.Append(x))"}, extra...) {
+			return
+		}
+	}
+	o.nontrivial("derive-twice", spare)
 }
 
 // ---------------------------------------------------------------------------
